@@ -34,11 +34,13 @@ type IntJ struct {
 }
 
 type RouteJ struct {
-	Match      map[string]string `json:"match,omitempty"`
-	GroupBy    []string          `json:"group_by,omitempty"` // nil = inherit; ["..."] = all
-	Receiver   string            `json:"receiver,omitempty"`
-	Continue   bool              `json:"continue,omitempty"`
-	GW, GI, RI int64             `json:"-"`
+	Match    map[string]string `json:"match,omitempty"`
+	GroupBy  []string          `json:"group_by,omitempty"` // nil = inherit; ["..."] = all
+	Receiver string            `json:"receiver,omitempty"`
+	Continue bool              `json:"continue,omitempty"`
+	GW       int64             `json:"gw,omitempty"` // own timers of the child route (ns); 0 = inherit
+	GI       int64             `json:"gi,omitempty"`
+	RI       int64             `json:"ri,omitempty"`
 }
 
 type OpJ struct {
@@ -91,6 +93,15 @@ func (sc *Scenario) YAML() string {
 				b.WriteString("    continue: true\n")
 			}
 			gb("    ", r.GroupBy)
+			if r.GW != 0 {
+				fmt.Fprintf(&b, "    group_wait: %s\n", dur(r.GW))
+			}
+			if r.GI != 0 {
+				fmt.Fprintf(&b, "    group_interval: %s\n", dur(r.GI))
+			}
+			if r.RI != 0 {
+				fmt.Fprintf(&b, "    repeat_interval: %s\n", dur(r.RI))
+			}
 		}
 	}
 	b.WriteString("receivers:\n")
